@@ -11,7 +11,7 @@ Open Scope R_scope.
 Theorem atan2_polar : forall x y, x <> 0 \/ y <> 0 ->
   x = sqrt (x * x + y * y) * cos (atan2 y x) /\ y = sqrt (x * x + y * y) * sin (atan2 y x) /\
   - PI < atan2 y x <= PI.
-Proof. intros x y H. destruct (atan2_cos_sin x y H) as [A B]. exact (conj A (conj B (atan2_range x y H))). Qed.
+Proof. exact atan2_polar. Qed.
 
 (* ---- definitions ---- *)
 (* A, B = energy-weighted band averages of a1, b1 *)
